@@ -396,7 +396,8 @@ def run_check(prop, argv=None):
             if r['failed']:
                 k = prop.known(r['case'], r['impl'], r['failed'], known_entries)
                 if k is not None:
-                    known_hits.setdefault(k['id'], (k, r))
+                    for kk in (k if isinstance(k, list) else [k]):
+                        known_hits.setdefault(kk['id'], (kk, r))
                     continue
                 st['monitor_failures'] += 1
                 failures.append((stream, r))
